@@ -41,8 +41,26 @@ func init() {
 	ss("strings.Title", strings.Title)
 	ss("strings.ToTitle", strings.ToTitle)
 	ss("strconv.Quote", strconv.Quote)
-	sss("strings.TrimPrefix", strings.TrimPrefix)
-	sss("strings.TrimSuffix", strings.TrimSuffix)
+	reg("strings.TrimPrefix", func(fr *frame, a []value) value {
+		if allConcStr(a[0], a[1]) {
+			return strings.TrimPrefix(a[0].(string), a[1].(string))
+		}
+		bs, ss := strBytes(a[0]), strBytes(a[1])
+		if len(ss) <= len(bs) && cx.BranchV(matchAt(bs, 0, ss)) {
+			return mkStr(bs[len(ss):])
+		}
+		return normStr(a[0])
+	})
+	reg("strings.TrimSuffix", func(fr *frame, a []value) value {
+		if allConcStr(a[0], a[1]) {
+			return strings.TrimSuffix(a[0].(string), a[1].(string))
+		}
+		bs, ss := strBytes(a[0]), strBytes(a[1])
+		if len(ss) <= len(bs) && cx.BranchV(matchAt(bs, len(bs)-len(ss), ss)) {
+			return mkStr(bs[:len(bs)-len(ss)])
+		}
+		return normStr(a[0])
+	})
 	ssb("strings.EqualFold", strings.EqualFold)
 	ssb("strings.ContainsAny", strings.ContainsAny)
 	ssi("strings.Count", strings.Count)
